@@ -18,6 +18,17 @@ tail -3 /tmp/sv-$NAME.with.log
 if [ $without -eq 0 ] && [ $with -ne 0 ] && [ $tests -eq 0 ] && [ $res = ok ]; then
   mkdir -p /verif/seeded/$NAME
   cp $SRC/patch.diff $SRC/demo.py $SRC/meta.json /verif/seeded/$NAME/
+  python3 - "$NAME" <<'PY'
+import json, subprocess, sys
+p = f"/verif/seeded/{sys.argv[1]}/meta.json"
+m = json.load(open(p))
+head = subprocess.run(["git", "-C", "/repo", "log", "--format=%h", "-1"], capture_output=True, text=True).stdout.strip()
+m["confirmed"] = {"how": "tools/seed_verify.sh: fresh scratch worktree of /repo HEAD, demo.py run without the patch (exit 0), "
+                  "patch applied (git apply), demo.py run again (exit != 0), full test suite run with the patch "
+                  "(pytest -x, the two tests that fail/flake on the pinned commit deselected): exit 0; worktree removed",
+                  "repo_head": head}
+json.dump(m, open(p, "w"), indent=1)
+PY
   echo "CONFIRMED -> /verif/seeded/$NAME"
 else
   echo "NOT CONFIRMED"
